@@ -111,17 +111,115 @@ def need_of(facts, b, kind, c):
     return '?'
 
 
+def _tracked_bools(b):
+    """bool locals whose value can be followed: assigned as a whole only, never borrowed"""
+    c = getattr(b, '_qv_tracked_bools', None)
+    if c is not None:
+        return c
+    out = {l for l, t in enumerate(b.locals) if t[0] == 'bool'}
+    for blk in b.blocks:
+        for st in blk['s']:
+            if st[0] == '=':
+                if st[1][1]:
+                    out.discard(st[1][0])
+                if st[2][0] == 'ref' and not st[2][2][1]:
+                    out.discard(st[2][2][0])
+    b._qv_tracked_bools = out
+    return out
+
+
+def _const_reach(b, start, goal, avoid=None, avoid_edge=None):
+    """`goal` is reachable from `start` (not through `avoid`) when a switch on a bool local that holds a literal constant on
+    the path walked (`L = const c`, copies and `!` followed, no other store in between) only takes the edge selected by c.
+    This is the named-bool form of a short-circuit condition: `let bad = p || q || r; if bad { return }` assigns `bad = true`
+    on the true edge of p and of q and then branches once; the edges pruned here are infeasible, nothing else is removed."""
+    tracked = _tracked_bools(b)
+    can = set()            # blocks from which goal is reachable at all (search space)
+    stack = [goal]
+    while stack:
+        x = stack.pop()
+        if x in can or x == avoid:
+            continue
+        can.add(x)
+        stack.extend(b.pred[x])
+    seen = set()
+    stack = [(start, frozenset())]
+    plain = lambda o: o[0] in ('c', 'm') and not o[1][1]
+    while stack:
+        cur, env = stack.pop()
+        if cur == goal:
+            return True
+        if (cur, env) in seen or cur not in can or len(seen) > 20000:
+            if len(seen) > 20000:
+                return True
+            continue
+        seen.add((cur, env))
+        e = dict(env)
+        blk = b.blocks[cur]
+        for st in blk['s']:
+            if st[0] == 'dead':
+                e.pop(st[1], None)
+                continue
+            if st[0] != '=':
+                continue
+            dst, rv = st[1], st[2]
+            if dst[1]:
+                continue
+            v = None
+            if dst[0] in tracked:
+                if rv[0] == 'use' and rv[1][0] == 'k' and rv[1][1] == 'int' and str(rv[1][2]) in ('0', '1'):
+                    v = int(rv[1][2])
+                elif rv[0] == 'use' and plain(rv[1]) and rv[1][1][0] in e:
+                    v = e[rv[1][1][0]]
+                elif rv[0] == 'un' and rv[1] == 'Not' and plain(rv[2]) and rv[2][1][0] in e:
+                    v = 1 - e[rv[2][1][0]]
+            if v is None:
+                e.pop(dst[0], None)
+            else:
+                e[dst[0]] = v
+        t = blk['t']
+        succ = list(b.succ[cur])
+        if t[0] == 'call' and isinstance(t[1], dict) and t[1].get('dst'):
+            e.pop(t[1]['dst'][0], None)
+        if t[0] == 'switch' and plain(t[1]) and t[1][1][0] in e:
+            val = e[t[1][1][0]]
+            tgt = t[3]
+            for v_, t_ in t[2]:
+                if str(v_) == str(val):
+                    tgt = t_
+            if tgt in succ:
+                succ = [tgt]
+        ne = frozenset(e.items())
+        for s_ in succ:
+            if avoid_edge is None or (cur, s_) != avoid_edge:
+                stack.append((s_, ne))
+    return False
+
+
 def _controlling(facts, b, bb, only_len):
     guards = []
+    reach0 = None
     for br in branches(facts, b):
-        if br.bb == bb or not b.dominates(br.bb, bb):
+        if br.bb == bb:
             continue
         if only_len and not _has_len_query(br.desc):
             continue
         sides = []
-        for v, t in br.edges:
-            if bb in b.reachable_from(t, avoid=[br.bb]) or bb == t:
-                sides.append(v)
+        if b.dominates(br.bb, bb):
+            for v, t in br.edges:
+                if bb in b.reachable_from(t, avoid=[br.bb]) or bb == t:
+                    sides.append(v)
+            if len(sides) == 2 and len(br.edges) == 2 and relation_on(br.desc, True) is not None:
+                # both edges rejoin before the site: the comparison may still decide it through a named bool
+                sides = [v for v, t in br.edges if bb == t or _const_reach(b, t, bb, br.bb)]
+        elif len(br.edges) == 2 and relation_on(br.desc, True) is not None and br.edges[0][1] != br.edges[1][1]:
+            # not a dominator of the plain CFG: an earlier operand of the same short-circuit condition jumps past this test
+            # with the named bool already decided (`let bad = p || q; if bad { return }`: the true edge of p skips q).  The
+            # edge controls the site when no feasible path (switches on constant-holding bools followed) reaches it otherwise
+            if reach0 is None:
+                reach0 = b.reachable_from(0)
+            if br.bb in reach0 and bb in b.reachable_from(br.bb):
+                sides = [v for v, t in br.edges if not _const_reach(b, 0, bb, None, (br.bb, t))]
         if len(sides) != 1:
             continue
         v = sides[0]
@@ -225,6 +323,21 @@ def auto_verdict(p):
         rl = _range_len(need)
         if rl and isinstance(rl[2], int) and rl[2] <= n:
             return 'ok', 'constant range %s within local array of %d' % (need[-20:], n)
+        # `arr[0..x]` / `arr[..x]` (the same prefix, two spellings) under a controlling `x <= K`, K <= N
+        if rl and rl[1] == 0 and isinstance(rl[2], str):
+            for g in p.get('all_guards', guards):
+                mg = _re.fullmatch(r'(.+) (Le|Lt) (.+)', g)
+                if not mg or mg.group(1) != rl[2]:
+                    continue
+                k = _const_of(mg.group(3))
+                if k is not None and (k if mg.group(2) == 'Le' else k - 1) <= n:
+                    return 'ok', 'guard `%s` keeps the prefix range within the local array of %d' % (g, n)
+    # `&recv[start..]` where start is the payload of `recv.len().checked_sub(K)`: the payload exists only when K <= len and is
+    # then len - K <= len (the `if len < K { return }; &recv[len - K..]` idiom with the test and the subtraction fused)
+    if recv and 'index' in callee:
+        mcs = _re.search(r'RangeFrom::RangeFrom\{\(usize::checked_sub\((.+), [^{}]+\) as (?:Some|Continue)\)\.0\}$', need)
+        if mcs and _re.fullmatch(r'\S*len\(%s\)' % _re.escape(recv), mcs.group(1)):
+            return 'ok', 'start index is the Some payload of len(%s).checked_sub(..), at most the length' % recv[:40]
     # needed byte count
     n_need = None
     expr_need = None
